@@ -37,7 +37,7 @@ def parseEnv (t k p x : String) : Option DEnv := do
   if !(t.startsWith "T=" && k.startsWith "K=" && p.startsWith "P=" && x.startsWith "X=") then none
   if ts.any (fun e => e.2.length != 16) then none
   let env : Env := {
-    pristine := fun f => (listGet ts (0, []) f).2
+    pristine := fun f => (listGet ts (0, List.replicate 16 0#8) f).2   -- EnvOk holds of this instance (functions outside the corpus: 16 bytes)
     funcSize := fun f => (listGet ts (0, []) f).1
     phSize := fun o => listGet ps 0 o
     fixOk := fun f o => listGet (listGet xs [] f) '0' o == '1'
@@ -45,7 +45,7 @@ def parseEnv (t k p x : String) : Option DEnv := do
     stubAddr := fun n => BitVec.ofNat 64 (0xc000000000 + 16 * n) }
   pure { env := env, nT := ts.length, nP := ps.length, nB := 0 }
 
-def nCb : Nat := 12
+def nCb : Nat := 20
 
 /-- `NOP; MOV RDX, imm64; JMP [RDX]` → `jmp(k<i>)` / `jmp(heap)`, anything else raw -/
 def canon13 (d : DEnv) (b : Bytes) : String :=
@@ -80,41 +80,53 @@ def behStr (d : DEnv) (s : St) : String :=
   "b=" ++ String.intercalate "," bs ++ " n=o,o,o"
 
 def viaCode : String → Option Nat
-  | "f" => some 0 | "e" => some 1 | "m" => some 2 | "u" => some 3 | "v" => some 4 | _ => none
+  | "f" => some 0 | "e" => some 1 | "m" => some 2 | "u" => some 3 | "v" => some 4 | "x" => some 5 | "p" => some 6 | _ => none
 
-/-- corpus layout (harness/c02/targets.go): 0–6 functions, 7–9 methods of T, 10–11 function literals, 12–16 methods of L -/
+/-- corpus layout (harness/c02/targets.go): 0–6 functions (5 generic at int), 7–9 methods of T, 10–11 function literals,
+    12–16 methods of L, 17 method M7 of the namesake type T of the second package, 18 the generic instantiated at int64,
+    19 the unexported namesake u4 of the second package (reachable through `b.Pkg(path).ExportFunc("u4")`, via p, only) -/
 def isTMethod (t : Nat) : Bool := t ≥ 7 && t ≤ 9
-def isLMethod (t : Nat) : Bool := t ≥ 12
-def isMethod (t : Nat) : Bool := isTMethod t || isLMethod t
+def isLMethod (t : Nat) : Bool := t ≥ 12 && t ≤ 16
+def isSMethod (t : Nat) : Bool := t == 17
+def isGeneric (t : Nat) : Bool := t == 5 || t == 18
+def isMethod (t : Nat) : Bool := isTMethod t || isLMethod t || isSMethod t
 def isLiteral (t : Nat) : Bool := t == 10 || t == 11
 
-/-- index of callback class k with the target's signature in the K list (functions; methods of T; methods of L) -/
-def cbIndex (t k : Nat) : Nat := if isTMethod t then 4 + k else if isLMethod t then 8 + k else k
+/-- index of callback class k with the target's signature in the K list (functions; methods of T; of L; of the namesake T; int64) -/
+def cbIndex (t k : Nat) : Nat :=
+  if isTMethod t then 4 + k else if isLMethod t then 8 + k else if isSMethod t then 12 + k else if t == 18 then 16 + k else k
 
-/-- vias m (Struct(x).Method) and u (Struct(x).ExportMethod) go through the builder's struct mocker -/
-def isStructVia (v : Nat) : Bool := v == 2 || v == 3
+/-- vias m (Struct(x).Method), u (Struct(x).ExportMethod) and x (ExportStruct("*T").Method) go through a struct-level mocker
+    of the builder.  Go keeps one such wrapper per struct type / name; none of them is ever replaced (`scanceled_never`), so
+    they are modelled as ONE cache owner per builder with disjoint key spaces (via code and target index are in the key). -/
+def isStructVia (v : Nat) : Bool := v == 2 || v == 3 || v == 5
 
 def parseStep (d : DEnv) (toks : List String) : Option Op :=
   let chk (b t : Nat) (via : Nat) (o : Option Nat) : Bool :=
-    b < d.nB && t < d.nT && via < 5 &&
-    (via < 2 || (isStructVia via && isTMethod t) || (via == 4 && isMethod t)) &&    -- m/u need Struct(&T{}); v needs a method
+    b < d.nB && t < d.nT && via < 7 && ((via == 6) == (t == 19)) &&
+    (via == 6 || via == 0 || (via == 1 && !isLiteral t && !isGeneric t && !isSMethod t) || (via == 2 && (isTMethod t || isSMethod t)) ||
+      ((via == 3 || via == 5) && isTMethod t) || (via == 4 && isMethod t)) &&
     (!isLiteral t || via == 0) &&                                                      -- a func literal is reachable through Func(variable) only
-    (match o with | some j => j < d.nP && ((j == 3) == isTMethod t) && !isLMethod t | none => true)
+    (match o with | some j => j < d.nP && ((j == 3) == isTMethod t) && !isLMethod t && !isSMethod t && t != 18 && t != 19 | none => true)
   -- `kept`: through the kept struct mocker (tokens sa/sr/sw/sc/sk) instead of a fresh Struct(x) lookup
   let mk (kind : String) (kept : Bool) (b v t k : Nat) (o : Option Nat) : Option Op :=
     let key := v * 1000 + t
     let kk := cbIndex t k
-    if kept && !isStructVia v then none else
+    if kept && !((v == 2 || v == 3) && isTMethod t) then none else
     match kind with
     | "a" => if k < 4 then some (if isStructVia v then .sapply b key kk o kept else .apply b key kk o) else none
     | "r" => some (if isStructVia v then .sret b key o kept else .ret b key o)
-    | "w" => if (isMethod t && v != 2) || t == 5 then none else some (if isStructVia v then .sret b key o kept else .ret b key o)
+    | "w" => if (isMethod t && v != 2) || isGeneric t then none else some (if isStructVia v then .sret b key o kept else .ret b key o)
     | "c" => some (if isStructVia v then .scancel b key kept else .cancel b key)
     | "k" => some (if isStructVia v then .skeep b key kept else .keep b key)
     | _ => none
   match toks with
   | ["x", b] => do let b ← b.toNat?; if b < d.nB then pure (.reset b) else none
   | ["K", b] => do let b ← b.toNat?; if b < d.nB then pure (.keepS b) else none
+  | ["Y", b] => do let b ← b.toNat?; if b < d.nB then pure (.other b) else none
+  | ["ab", b, "f", t] => do
+    let b ← b.toNat?; let t ← t.toNat?
+    if b < d.nB && t < d.nT then pure (.applyBad b t) else none
   | [kind, b, via, t] => do
     let b ← b.toNat?; let v ← viaCode via; let t ← t.toNat?
     if !chk b t v none then none
@@ -148,6 +160,7 @@ def errStr : Err → String
   | .tooSmall => "panic:too-small"
   | .alreadyPatched => "panic:already-patched"
   | .fixOrigin => "panic:fix-origin"
+  | .rejected => "panic:rejected"
 
 def splitSteps (toks : List String) : List (List String) :=
   let (acc, cur) := toks.foldl (fun (p : List (List String) × List String) t =>
